@@ -108,9 +108,15 @@ type mapOrder struct {
 	mu    sync.Mutex
 	sites map[string]*siteStat
 	seen  map[string]bool
-	stats struct {
+	// failing: design -> sites whose bound-1 deviation changes the output
+	failing map[string]map[string]bool
+	stats   struct {
 		baselines, notGenerated, deviations, pairs int
 	}
+}
+
+func newMapOrder(c *core.Ctx, e *Env) *mapOrder {
+	return &mapOrder{c: c, e: e, sites: map[string]*siteStat{}, seen: map[string]bool{}, failing: map[string]map[string]bool{}}
 }
 
 func (m *mapOrder) firstSeen(sig string) bool {
@@ -186,33 +192,43 @@ type devJob struct {
 	devs []Deviation
 }
 
-// jobsFor lists the deviations of one design: bound 1 (every reached site x its menu) and, when
-// pairs is set, bound 2 (every unordered pair of reached in-scope sites, both reversed).
-func jobsFor(b *baseline, pairs, reduced bool) []devJob {
+// jobsFor lists the bound-1 deviations of one design: every reached site x its menu.
+func jobsFor(b *baseline, reduced bool) []devJob {
 	var ids []string
 	for id := range b.run.Report {
 		ids = append(ids, id)
 	}
 	sort.Strings(ids)
 	var jobs []devJob
-	var scoped []string
 	for _, id := range ids {
-		modes := modesFor(b.run.Report[id], reduced)
-		for _, mode := range modes {
+		for _, mode := range modesFor(b.run.Report[id], reduced) {
 			jobs = append(jobs, devJob{b, []Deviation{{id, mode}}})
-		}
-		if len(modes) > 0 && pairScope(id) {
-			scoped = append(scoped, id)
-		}
-	}
-	if pairs {
-		for i := 0; i < len(scoped); i++ {
-			for j := i + 1; j < len(scoped); j++ {
-				jobs = append(jobs, devJob{b, []Deviation{{scoped[i], "rev"}, {scoped[j], "rev"}}})
-			}
 		}
 	}
 	return jobs
+}
+
+// pairJobsFor lists the bound-2 deviations of one design: every unordered pair of reached
+// in-scope sites, both reversed. Sites that already change the output on their own (failing) are
+// left out: a pair containing one is not a minimal deviation.
+func pairJobsFor(b *baseline, failing map[string]bool) (jobs []devJob, subsumed int) {
+	var scoped []string
+	for id, v := range b.run.Report {
+		if pairScope(id) && len(modesFor(v, true)) > 0 {
+			scoped = append(scoped, id)
+		}
+	}
+	sort.Strings(scoped)
+	for i := 0; i < len(scoped); i++ {
+		for j := i + 1; j < len(scoped); j++ {
+			if failing[scoped[i]] || failing[scoped[j]] {
+				subsumed++
+				continue
+			}
+			jobs = append(jobs, devJob{b, []Deviation{{scoped[i], "rev"}, {scoped[j], "rev"}}})
+		}
+	}
+	return jobs, subsumed
 }
 
 func siteWhere(id string) string {
@@ -280,6 +296,14 @@ func (m *mapOrder) runDeviation(j devJob) {
 		return
 	}
 	c.Outcome("differs under deviation in " + file)
+	if len(j.devs) == 1 {
+		m.mu.Lock()
+		if m.failing[d.Name] == nil {
+			m.failing[d.Name] = map[string]bool{}
+		}
+		m.failing[d.Name][j.devs[0].Site] = true
+		m.mu.Unlock()
+	}
 	classes := diffClasses(diff, api, svcs)
 	what := ""
 	for _, class := range classes {
@@ -357,26 +381,47 @@ var siteRemarks = map[string]string{
 // Designs in full get the complete deviation menu, the others the reduced one; designs in pairs
 // additionally get the bound-2 deviations.
 func RunMapOrder(c *core.Ctx, e *Env, designs []*DesignRef, full, pairDesigns map[string]bool) []*baseline {
-	m := &mapOrder{c: c, e: e, sites: map[string]*siteStat{}, seen: map[string]bool{}}
+	m := newMapOrder(c, e)
 	bases := m.runBaselines(designs)
+	run := func(jobs []devJob, what string) {
+		var skipped int64
+		var smu sync.Mutex
+		core.Parallel(len(jobs), func(i int) {
+			if c.Expired() {
+				smu.Lock()
+				skipped++
+				smu.Unlock()
+				return
+			}
+			m.runDeviation(jobs[i])
+		})
+		if skipped > 0 {
+			c.Incomplete(fmt.Sprintf("map-order %s: deadline reached, %d of %d planned deviation runs not executed (jobs are ordered by design)", what, skipped, len(jobs)))
+		}
+	}
 	var jobs []devJob
 	for _, b := range bases {
-		jobs = append(jobs, jobsFor(b, pairDesigns[b.d.Name], !full[b.d.Name])...)
-	}
-	c.Note("map_order_deviations_planned", len(jobs))
-	var skipped int64
-	var smu sync.Mutex
-	core.Parallel(len(jobs), func(i int) {
-		if c.Expired() {
-			smu.Lock()
-			skipped++
-			smu.Unlock()
-			return
+		if e.noDeviations {
+			break
 		}
-		m.runDeviation(jobs[i])
-	})
-	if skipped > 0 {
-		c.Incomplete(fmt.Sprintf("map-order: deadline reached, %d of %d planned deviation runs not executed (jobs are ordered by design)", skipped, len(jobs)))
+		jobs = append(jobs, jobsFor(b, !full[b.d.Name])...)
+	}
+	c.Note("map_order_bound1_planned", len(jobs))
+	run(jobs, "bound 1")
+	var pairs []devJob
+	subsumed := 0
+	for _, b := range bases {
+		if e.noDeviations || !pairDesigns[b.d.Name] {
+			continue
+		}
+		pj, sub := pairJobsFor(b, m.failing[b.d.Name])
+		pairs = append(pairs, pj...)
+		subsumed += sub
+	}
+	if len(pairDesigns) > 0 {
+		c.Note("map_order_bound2_planned", len(pairs))
+		c.Note("map_order_bound2_pairs_subsumed_by_a_bound1_difference", subsumed)
+		run(pairs, "bound 2")
 	}
 	// coverage of the static sites
 	static := map[string]*Site{}
